@@ -14,6 +14,10 @@ Implementation functions driven (real code from $VERIF_REPO/src):
     declared Rows/Columns/TotalPixelMatrixRows/Columns besides the regions
   seg.create_segmentation_pyramid (one source + one mask per level, several sources, one
     source + downsample_factors)
+  Image.get_volume(row_start, ...) on tiled slide images (kind img_vol: the region path through
+    the double standardisation), Segmentation.get_volume on tiled segmentations (kind seg_reads)
+  Segmentation.get_total_pixel_matrix with caller-chosen segment_numbers per read (empty, not
+    described, duplicated, permuted), LABELMAP with combine_segments False / True / relabel (seg_reads)
 Model: coq/theories/C04_Model.v; theorems: C04_Props.v.
 Kind 'np1d' compares the MODEL with pure numpy slicing (no highdicom) on the
 exhaustive per-axis enumeration of start/end arguments.
@@ -48,9 +52,14 @@ MODELLED = ('image.py _standardize_row_column_indices, _iterate_indices_for_tile
             'guard, are_total_pixel_matrix_locations_preserved, shape guard, are_spatial_locations_preserved and the '
             'TotalPixelMatrixRows/Columns written by _add_slide_coordinate_metadata (stored_geom / run_seg_geom); '
             'create_segmentation_pyramid levels as a list of such constructions (array-per-level and '
-            'source-per-level modes; the downsample_factors mode is oracle-only)')
+            'source-per-level modes; the downsample_factors mode is oracle-only); the frame loop ALSO as numpy '
+            'array updates (np.zeros + clamped slice assignment per selected frame: read_region_arr, used for '
+            'half of the img cases, proved equal to the cell-wise loop); the region path of Image.get_volume / '
+            'Segmentation.get_volume on tiled images (standardise to indices, then get_total_pixel_matrix with '
+            'as_indices=True: vol_region); segment_numbers checks (empty / not described -> ValueError) and the '
+            'LABELMAP output modes (planes, combined, relabelled) of Segmentation.get_total_pixel_matrix')
 STRATA = ['std', 'std_bad', 'img', 'img_missing', 'img_dup', 'seg', 'seg_full_omit', 'np1d',
-          'seg_geom', 'seg_geom_bad', 'seg_pyr']
+          'seg_geom', 'seg_geom_bad', 'seg_pyr', 'img_vol', 'seg_reads']
 NOT_EXECUTED = ['float (probability) inputs of FRACTIONAL segmentations (value encoding is property C01)',
                 'compressed transfer syntaxes (frame codecs are property C07)',
                 'multiple optical paths / focal planes (property C12 covers the implied order)']
@@ -63,10 +72,26 @@ RULE = ('std: exhaustive small sizes x all argument values in [-n-2, n+3] U {Non
         'seg_geom: source matrix/tile size independent of the mask, caller-given spacing/orientation/origin each '
         'absent, equal to or different from the source, mask shape = source / halved / arbitrary / larger, tile_size '
         'None / = source tile / custom; seg_geom_bad: coinciding matrix with another shape, plane_positions with two '
-        'items or not at (1, 1); seg_pyr: pyramids of 2-3 levels in the three single/multi source modes. '
+        'items or not at (1, 1); seg_pyr: pyramids of 2-3 levels in the three single/multi source modes; '
+        'img_vol: get_volume on complete / incomplete TILED_FULL / TILED_SPARSE images, same region stream as img '
+        'plus the one-based end 0 on either axis; seg_reads: one construction, 7 reads each with its own '
+        'segment_numbers (valid subsets/permutations/duplicates, empty, undescribed numbers), output mode '
+        '(planes; LABELMAP also combined / relabelled) and entry point (get_total_pixel_matrix / get_volume). '
         'non-trivial = more than one tile and a non-whole region, or a refusal; distinct by case hash')
 EXHAUSTIVE = {'quick': False, 'thorough': False}
-FINDINGS = {}
+
+
+def _end0_via_volume(c):
+    """signature of the OPEN finding: tiled get_volume with the one-based row_end / column_end 0 returns all
+    rows / columns but the last instead of refusing (C04_volume_region_agrees_refuted)"""
+    if c.get('kind') == 'img_vol':
+        return any((not rg[0]) and (rg[2] == 0 or rg[4] == 0) for rg in c['regions'])
+    if c.get('kind') == 'seg_reads':
+        return any(vv and (not rg[0]) and (rg[2] == 0 or rg[4] == 0) for _, vv, _, rg in c['reads'])
+    return False
+
+
+FINDINGS = {'D100': _end0_via_volume}
 
 
 # --------------------------------------------------------------------------
@@ -370,6 +395,39 @@ def _gen_pyramid(rng):
     return c
 
 
+def _gen_seg_reads(rng):
+    R, C, th, tw = _sizes(rng)
+    m = _mask_case(rng, R, C)
+    full = rng.random() < 0.45
+    omit = (not full) and rng.random() < 0.7
+    nseg = m['nseg']
+    reads = []
+    for _ in range(7):
+        k = rng.random()
+        if k < 0.08:
+            sel = []
+        elif k < 0.2:
+            sel = rng.sample(range(1, nseg + 1), rng.randint(0, nseg - 1)) + [rng.choice([0, nseg + 1, nseg + 3, -1])]
+            rng.shuffle(sel)
+        else:
+            sel = rng.sample(range(1, nseg + 1), rng.randint(1, nseg))
+        mode = 'planes'
+        if m['ty'] == 'LABELMAP':
+            mode = rng.choice(['planes', 'combined', 'relabel'])
+        if mode == 'planes' and sel and rng.random() < 0.2:
+            sel = sel + [rng.choice(sel)]            # duplicated request
+        via_volume = rng.random() < 0.4
+        rg = _region(rng, R, C, th, tw, pbad=0.15)
+        if via_volume and rng.random() < 0.12:
+            rg[0] = False
+            rg[rng.choice([2, 4])] = 0               # one-based end 0 through get_volume
+        reads.append([mode, via_volume, sel, rg])
+    c = {'kind': 'seg_reads', 'R': R, 'C': C, 'th': th, 'tw': tw, 'full': full, 'omit': omit,
+         'src_tile': [rng.randint(1, 4), rng.randint(1, 4)], 'reads': reads}
+    c.update(m)
+    return c
+
+
 def _std_values(n):
     return [None] + list(range(-n - 2, n + 4))
 
@@ -410,6 +468,7 @@ def gen_cases(rng, tier):
         samples = 3 if rng.random() < 0.25 else 1
         full = rng.random() < 0.5
         c = {'kind': 'img', 'R': R, 'C': C, 'th': th, 'tw': tw, 'full': full, 'samples': samples,
+             'arr': rng.random() < 0.5,            # model side: array-update loop instead of the cell-wise one
              'px': _pixels(rng, R, C, samples), 'drop': [], 'dup': None,
              'regions': [[False, None, None, None, None]] + [_region(rng, R, C, th, tw) for _ in range(7)]}
         cases.append(c)
@@ -421,6 +480,7 @@ def gen_cases(rng, tier):
             nt = 6
         drop = sorted(rng.sample(range(nt), rng.randint(1, max(1, nt // 2))))
         c = {'kind': 'img_missing', 'R': R, 'C': C, 'th': th, 'tw': tw, 'full': False, 'samples': 1,
+             'arr': rng.random() < 0.5,
              'px': _pixels(rng, R, C, 1), 'drop': drop, 'dup': None,
              'regions': [[False, None, None, None, None]] + [_region(rng, R, C, th, tw, pbad=0.08) for _ in range(9)]}
         cases.append(c)
@@ -435,6 +495,27 @@ def gen_cases(rng, tier):
              'px': _pixels(rng, R, C, 1), 'drop': [], 'dup': [i, j],
              'regions': [_region(rng, R, C, th, tw) for _ in range(3)]}
         cases.append(c)
+    # ---- Image.get_volume on tiled images (region path) --------------------------------
+    for _ in range(70 * nrand):
+        R, C, th, tw = _sizes(rng)
+        samples = 3 if rng.random() < 0.2 else 1
+        full = rng.random() < 0.5
+        nt = (-(-R // th)) * (-(-C // tw))
+        drop = []
+        if not full and nt >= 2 and rng.random() < 0.3:
+            drop = sorted(rng.sample(range(nt), rng.randint(1, max(1, nt // 3))))
+        regions = [[False, None, None, None, None]] + [_region(rng, R, C, th, tw) for _ in range(6)]
+        # the one-based end 0 (denotes no region) on either axis
+        if rng.random() < 0.3:
+            rg0 = _region(rng, R, C, th, tw, pbad=0.0)
+            rg0[0] = False
+            rg0[rng.choice([2, 4])] = 0
+            regions.append(rg0)
+        cases.append({'kind': 'img_vol', 'R': R, 'C': C, 'th': th, 'tw': tw, 'full': full, 'samples': samples,
+                      'px': _pixels(rng, R, C, samples), 'drop': drop, 'dup': None, 'regions': regions})
+    # ---- Segmentation reads: segment_numbers, output modes, get_volume ---------------------
+    for _ in range(90 * nrand):
+        cases.append(_gen_seg_reads(rng))
     # ---- Segmentation(tile_pixel_array=True) + get_total_pixel_matrix ---------------
     for _ in range(260 * nrand):
         R, C, th, tw = _sizes(rng)
@@ -640,6 +721,38 @@ def _run_pyramid(c):
     return [_observe_seg(sg, c, rgs, geom=True) for sg, rgs in zip(segs, c['regions'])]
 
 
+def _run_seg_reads(c):
+    import numpy as np
+    import synth
+    R, C = c['R'], c['C']
+    src = synth.sm_tiled(R, C, c['src_tile'][0], c['src_tile'][1])
+    arr = _mask_array(c, R, C)
+
+    def build():
+        return synth.make_seg([src], arr, c['ty'], list(range(1, c['nseg'] + 1)),
+                              tile_pixel_array=True, tile_size=(c['th'], c['tw']),
+                              dimension_organization_type='TILED_FULL' if c['full'] else 'TILED_SPARSE',
+                              omit_empty_frames=c['omit'])
+    seg = catch(build)
+    if isinstance(seg, Err):
+        return seg
+    outs = [int(seg.NumberOfFrames)]
+    for mode, via_volume, sel, rg in c['reads']:
+        def f():
+            kw = dict(segment_numbers=list(sel), combine_segments=mode != 'planes', relabel=mode == 'relabel',
+                      rescale_fractional=False, **_kw(rg))
+            if via_volume:
+                a = seg.get_volume(**kw).array
+                assert a.shape[0] == 1
+                a = a[0]
+            else:
+                a = seg.get_total_pixel_matrix(**kw)
+            a = a.astype(np.int64)
+            return a.tolist() if mode != 'planes' else a.transpose(2, 0, 1).tolist()
+        outs.append(catch(f))
+    return outs
+
+
 def run_impl(c):
     import numpy as np
     _quiet()
@@ -661,6 +774,22 @@ def run_impl(c):
                 return a.transpose(2, 0, 1).tolist()
             outs.append(catch(f))
         return outs
+    if k == 'img_vol':
+        import highdicom as hd
+        im = hd.Image.from_dataset(_img_dataset(c), copy=False)
+        outs = []
+        for rg in c['regions']:
+            def f():
+                a = im.get_volume(dtype=np.int64, apply_icc_profile=False, **_kw(rg)).array
+                assert a.shape[0] == 1
+                a = a[0]
+                if a.ndim == 2:
+                    a = a[:, :, None]
+                return a.transpose(2, 0, 1).tolist()
+            outs.append(catch(f))
+        return outs
+    if k == 'seg_reads':
+        return _run_seg_reads(c)
     if k in ('seg', 'seg_full_omit'):
         import synth
         R, C = c['R'], c['C']
@@ -786,17 +915,27 @@ def coq_term(c):
         ai, rs, re, cs, ce = c['rg']
         return (f"(run_std {_b(ai)} {_b(c['oi'])} {optz(rs)} {optz(re)} {optz(cs)} {optz(ce)} "
                 f"{zlit(c['R'])} {zlit(c['C'])})")
-    if k in ('img', 'img_missing', 'img_dup'):
+    if k in ('img', 'img_missing', 'img_dup', 'img_vol'):
         planes = _img_tiles(c)
         dims = f"{c['R']} {c['C']} {c['th']} {c['tw']}"
+        sfx = '_vol' if k == 'img_vol' else ('_arr' if c.get('arr') else '')
         if c['full']:
             P = '[' + '; '.join('[' + '; '.join(zll(t[2]) for t in ts) + ']' for ts in planes) + ']'
-            calls = [f'run_img_full {dims} P {_rg_args(rg)}' for rg in c['regions']]
+            calls = [f'run_img_full{sfx} {dims} P {_rg_args(rg)}' for rg in c['regions']]
         else:
             P = '[' + '; '.join('[' + '; '.join(f'mkT {t[0]} {t[1]} {zll(t[2])}' for t in ts) + ']'
                                 for ts in planes) + ']'
-            calls = [f'run_img false {dims} P {_rg_args(rg)}' for rg in c['regions']]
+            calls = [f'run_img{sfx} false {dims} P {_rg_args(rg)}' for rg in c['regions']]
         return f"(let P := {P} in VL [{'; '.join(calls)}])"
+    if k == 'seg_reads':
+        ty = {'BINARY': 'Binary', 'FRACTIONAL': 'Fractional', 'LABELMAP': 'Labelmap'}[c['ty']]
+        planes, segs_model = _planes_term(c)
+        md = {'planes': 'Planes', 'combined': 'Combined', 'relabel': 'Relabelled'}
+        reads = '[' + '; '.join(
+            f"({md[mode]}, {_b(vv)}, {zl(sel)}, ({_b(rg[0])}, ({optz(rg[1])}, {optz(rg[2])}, {optz(rg[3])}, {optz(rg[4])})))"
+            for mode, vv, sel, rg in c['reads']) + ']'
+        return (f"(run_seg_reads {ty} 255 {_b(c['full'])} {_b(c['omit'])} {planes} {zl(segs_model)} "
+                f"{zl(list(range(1, c['nseg'] + 1)))} {c['R']} {c['C']} {c['th']} {c['tw']} {reads})")
     if k in ('seg', 'seg_full_omit'):
         ty = {'BINARY': 'Binary', 'FRACTIONAL': 'Fractional', 'LABELMAP': 'Labelmap'}[c['ty']]
         segs = list(range(1, c['nseg'] + 1))
@@ -924,6 +1063,45 @@ def _seg_oracle(c, R, C, th, tw, regions, out, geom):
     return None
 
 
+def _seg_reads_oracle(c, out):
+    import numpy as np
+    R, C, th, tw = c['R'], c['C'], c['th'], c['tw']
+    head = _seg_oracle(c, R, C, th, tw, [], out if isinstance(out, Err) else out[:1], geom=False)
+    if head is not None or isinstance(out, Err):
+        return head
+    L = np.array(c['L'], np.int64).reshape(R, C)
+    nseg = c['nseg']
+    if c['inp'] == 'label':
+        masks = {s: (L == s).astype(np.int64) for s in range(1, nseg + 1)}
+    else:
+        masks = {s + 1: np.array(p, np.int64).reshape(R, C) for s, p in enumerate(c['stack'])}
+    scale = 255 if c['ty'] == 'FRACTIONAL' else 1
+    for (mode, via_volume, sel, rg), o in zip(c['reads'], out[1:]):
+        what = f"{'get_volume' if via_volume else 'get_total_pixel_matrix'}(segment_numbers={sel}, {mode}, {rg})"
+        ref = ref_region(R, C, rg)
+        bad_sel = len(sel) == 0 or any(s not in masks for s in sel)
+        if bad_sel or ref is None:
+            if not isinstance(o, Err):
+                why = 'segment_numbers empty or not described' if bad_sel else 'arguments denote no region'
+                return f'{what}: {why}, yet returned {str(o)[:100]}'
+            continue
+        if isinstance(o, Err):
+            return f'{what}: valid read refused: {o}'
+        r0, r1, c0, c1 = ref
+        if mode == 'planes':
+            want = [(masks[s] * scale)[r0:r1, c0:c1].tolist() for s in sel]
+        elif mode == 'combined':
+            want = np.where(np.isin(L, sel), L, 0)[r0:r1, c0:c1].tolist()
+        else:
+            lut = np.zeros(nseg + 1, np.int64)
+            for i, s_ in enumerate(sel):
+                lut[s_] = i + 1
+            want = lut[L][r0:r1, c0:c1].tolist()
+        if o != want:
+            return f'{what}: got {str(o)[:200]} expected {str(want)[:200]}'
+    return None
+
+
 def oracle(c, out):
     import numpy as np
     k = c['kind']
@@ -949,7 +1127,9 @@ def oracle(c, out):
         d = 0 if c['oi'] else 1
         want = [ref[0] + d, ref[1] + d, ref[2] + d, ref[3] + d]
         return None if list(out) == want else f'standardised to {out}, conventions denote {want}'
-    if k in ('img', 'img_missing', 'img_dup'):
+    if k == 'seg_reads':
+        return _seg_reads_oracle(c, out)
+    if k in ('img', 'img_missing', 'img_dup', 'img_vol'):
         R, C, th, tw = c['R'], c['C'], c['th'], c['tw']
         px = np.array(c['px'], np.int64).reshape(R, C, c['samples'])
         planes = [px[:, :, s] for s in range(c['samples'])]
@@ -1048,6 +1228,8 @@ def nontrivial(c, out):
         return nt > 1 and any(r[1:] != [None, None, None, None] for r in c['regions'])
     if k == 'seg_pyr':
         return len(c['shapes']) > 1
+    if k == 'seg_reads':
+        return True
     if k == 'np1d':
         return c['n'] > c['t']
     nt = (-(-c['R'] // c['th'])) * (-(-c['C'] // c['tw']))
@@ -1057,6 +1239,11 @@ def nontrivial(c, out):
 def shrink(c):
     k = c['kind']
     if k == 'seg_pyr':
+        return
+    if k == 'seg_reads':
+        if len(c['reads']) > 1:
+            for i in range(len(c['reads'])):
+                yield dict(c, reads=[c['reads'][i]])
         return
     if 'regions' in c and len(c['regions']) > 1:
         for i in range(len(c['regions'])):
@@ -1087,9 +1274,9 @@ def shrink(c):
                         yield dict(c, L=L2)
         if k == 'seg' and c['nseg'] > 1 and c['inp'] == 'label' and max(max(r) for r in c['L']) < c['nseg']:
             yield dict(c, nseg=c['nseg'] - 1, sel=[s for s in c['sel'] if s < c['nseg']] or [1])
-    if k in ('img', 'img_missing') and c['samples'] == 3:
+    if k in ('img', 'img_missing', 'img_vol') and c['samples'] == 3:
         yield dict(c, samples=1, px=[[[p[0]] for p in row] for row in c['px']])
-    if k == 'img_missing' and len(c['drop']) > 1:
+    if k in ('img_missing', 'img_vol') and len(c['drop']) > 1:
         for d in c['drop']:
             yield dict(c, drop=[x for x in c['drop'] if x != d])
 
